@@ -58,6 +58,8 @@ ASSUMPTIONS = [
     "standard deviations of the transverse Gaussian, c * pulse_length that of the trivariate pulse along z; the Gaussian-beam "
     "divergence (Rayleigh range) is NOT judged because documentation and code use different conventions",
 ]
+ASAN_MODULES = ["cherab.core.model.laser.math_functions", "cherab.core.model.laser.profile", "cherab.core.model.laser.laserspectrum", "cherab.core.laser.laserspectrum", "cherab.core.laser.profile"]
+ASAN = dict(cases=2000, workers=8, timecap=240)
 QUICK = dict(cases=800, workers=2, timecap=45)
 THOROUGH = dict(cases=40000, workers=16, timecap=600)
 REQUIRED = {"quad_xsec": 60, "quad_volume": 4, "quad_uniform": 8, "tiling_lists": 40, "bins": 2000, "sum": 40,
